@@ -32,6 +32,7 @@ import Acme.Spec.ExportImport
 import Acme.Proofs.ExportRound2
 import Acme.Proofs.ImportExtra
 import Acme.Props.C10Msg
+import Acme.Core.ImportNested
 
 namespace Acme.Props.C11Msg
 open Acme.Layout Acme.Conv Acme.Arith Acme.Import
@@ -161,8 +162,8 @@ theorem ex_expressible : Expressible exTree := by decide
 
 /-- … its normal form lists the children by written start bit (`b`, `a` at start bit 1 in file order, then `f` at 5) … -/
 theorem ex_norm : norm exTree =
-    ⟨7, 8, true, [.mux ⟨"mx", 0, 2, 4, 12, [⟨"b", 4, 8, [0, 2, 3]⟩, ⟨"a", 4, 8, [1]⟩, ⟨"f", 0, 4, []⟩]⟩,
-                  .sig ⟨"p", 16, 8⟩]⟩ := by decide
+    ⟨7, 8, true, [.mux ⟨"mx", 0, 2, 4, 12, [⟨"b", 4, 8, [0, 2, 3], false⟩, ⟨"a", 4, 8, [1], false⟩, ⟨"f", 0, 4, [], false⟩]⟩,
+                  .sig ⟨"p", 16, 8⟩], []⟩ := by decide
 
 /-- … what the exporter writes for it: `M`, `m0` / `m1` indicators, Motorola start bits, and the
     SG_MUL_VAL_ ranges `0-0, 2-3` and `0-3` … -/
@@ -183,29 +184,79 @@ theorem ex_round : importMsg (exportMsg exTree) = .ok (norm exTree) := export_im
 
 /-- unused bits at the end of the groups are lost: group size 16 comes back as 8 -/
 theorem ex_slack :
-    importMsg (exportMsg ⟨1, 8, false, [.mux ⟨"mx", 0, 1, 2, 16, [⟨"a", 0, 8, [0]⟩]⟩]⟩) =
-      .ok ⟨1, 8, false, [.mux ⟨"mx", 0, 1, 2, 8, [⟨"a", 0, 8, [0]⟩]⟩]⟩ := by decide
+    importMsg (exportMsg ⟨1, 8, false, [.mux ⟨"mx", 0, 1, 2, 16, [⟨"a", 0, 8, [0], false⟩]⟩], []⟩) =
+      .ok ⟨1, 8, false, [.mux ⟨"mx", 0, 1, 2, 8, [⟨"a", 0, 8, [0], false⟩]⟩], []⟩ := by decide
 
 /-- a group count that is not a power of two is rounded up: 3 groups come back as 4 -/
 theorem ex_group_count :
-    importMsg (exportMsg ⟨1, 8, false, [.mux ⟨"mx", 0, 2, 3, 8, [⟨"a", 0, 8, [2]⟩]⟩]⟩) =
-      .ok ⟨1, 8, false, [.mux ⟨"mx", 0, 2, 4, 8, [⟨"a", 0, 8, [2]⟩]⟩]⟩ := by decide
+    importMsg (exportMsg ⟨1, 8, false, [.mux ⟨"mx", 0, 2, 3, 8, [⟨"a", 0, 8, [2], false⟩]⟩], []⟩) =
+      .ok ⟨1, 8, false, [.mux ⟨"mx", 0, 2, 4, 8, [⟨"a", 0, 8, [2], false⟩]⟩], []⟩ := by decide
 
 /-- a child listed for every group comes back as a fixed child -/
 theorem ex_all_groups :
-    importMsg (exportMsg ⟨1, 8, false, [.mux ⟨"mx", 0, 1, 2, 8, [⟨"a", 0, 8, [0, 1]⟩]⟩]⟩) =
-      .ok ⟨1, 8, false, [.mux ⟨"mx", 0, 1, 2, 8, [⟨"a", 0, 8, []⟩]⟩]⟩ := by decide
+    importMsg (exportMsg ⟨1, 8, false, [.mux ⟨"mx", 0, 1, 2, 8, [⟨"a", 0, 8, [0, 1], false⟩]⟩], []⟩) =
+      .ok ⟨1, 8, false, [.mux ⟨"mx", 0, 1, 2, 8, [⟨"a", 0, 8, [], false⟩]⟩], []⟩ := by decide
 
 /-- KNOWN FINDING D54: two multiplexers in one message are exported without SG_MUL_VAL_ entries
     for single-group children; the importer then demands extended multiplexing -/
 theorem ex_D54 :
     importMsg (exportMsg ⟨1, 8, false,
-      [.mux ⟨"m1", 0, 1, 2, 8, [⟨"a", 0, 8, [0]⟩]⟩, .mux ⟨"m2", 16, 1, 2, 8, [⟨"b", 0, 8, [1]⟩]⟩]⟩) =
+      [.mux ⟨"m1", 0, 1, 2, 8, [⟨"a", 0, 8, [0], false⟩]⟩, .mux ⟨"m2", 16, 1, 2, 8, [⟨"b", 0, 8, [1], false⟩]⟩], []⟩) =
       .error .extMuxRequired := by decide
 
 /-- KNOWN FINDING D76: an empty multiplexer is exported as a lone multiplexor signal; the importer
     derives group size 0 and refuses it -/
 theorem ex_D76 :
-    importMsg (exportMsg ⟨1, 8, false, [.mux ⟨"mx", 0, 1, 2, 8, []⟩]⟩) = .error .groupSizeZero := by decide
+    importMsg (exportMsg ⟨1, 8, false, [.mux ⟨"mx", 0, 1, 2, 8, []⟩], []⟩) = .error .groupSizeZero := by decide
+
+/-! ### nested multiplexers (model `exportMsgN` / `buildN` of Acme/Core/ImportNested.lean, tied by
+stream `imp`; no general theorem — see the header of this section)
+
+What the code does, as the stream observes it and these examples pin it:
+  * a nested multiplexer is written `m<k>M`, every child at every depth gets an SG_MUL_VAL_ entry,
+    the entries of the inner multiplexer come first;
+  * the statement `Signals[len-1].MuxSwitchValue = id` after the recursive call patches the LAST
+    signal written, so the nested multiplexor keeps switch value 0 and its last descendant gets the
+    parent's group id (visible in the fixture: `nested_mux_sig_1 m0M` with entry `1-1`);
+  * the text IS re-importable when the nested multiplexor's written start bit is greater than its
+    parent's — always in little endian — and is refused (`should precede`, D54 family, oracle
+    signature `c11-msg:reimport-refused:precede`) when it is smaller, which happens in big endian. -/
+
+open Acme.Props.C10Msg (fxMsg fxTree)
+
+/-- the export of the imported fixture message is the fixture message, quirk included -/
+theorem fx_export : exportAny fxTree = fxMsg := by decide
+
+theorem fx_round : importMsg (exportAny fxTree) = .ok fxTree := by decide
+
+/-- the API calls reproduce the tree (`buildN`: the nested node gets its absolute start 2) -/
+theorem fx_build : buildAny fxTree = .ok fxTree := by decide
+
+/-- big endian, parent selector at position 0 (written start bit 7), nested multiplexor at
+    position 1 (written start bit 6 < 7): after the sort by written start bit the nested
+    multiplexor comes first, so the parent is built BEFORE the nested multiplexor is handed to it -/
+def nestedBE : ITree :=
+  { id := 1, sizeByte := 8, bigEndian := true,
+    top := [.mux ⟨"p", 0, 1, 2, 6, [⟨"n", 0, 6, [0], true⟩, ⟨"a", 0, 6, [1], false⟩]⟩],
+    nested := [⟨"n", 1, 1, 2, 5, [⟨"k", 0, 5, [1], false⟩]⟩] }
+
+/-- … the importer then meets the nested multiplexor, whose parent does not precede it -/
+theorem ex_nested_BE_refused : importMsg (exportAny nestedBE) = .error .precede := by decide
+
+/-- … and when the nested multiplexer is the parent's only child the parent is found empty first -/
+def nestedBE1 : ITree :=
+  { id := 1, sizeByte := 8, bigEndian := true,
+    top := [.mux ⟨"p", 0, 1, 2, 6, [⟨"n", 0, 6, [0], true⟩]⟩],
+    nested := [⟨"n", 1, 1, 2, 5, [⟨"k", 0, 5, [1], false⟩]⟩] }
+
+theorem ex_nested_BE_refused_empty : importMsg (exportAny nestedBE1) = .error .groupSizeZero := by decide
+
+/-- the same tree in little endian comes back (children in the importer's order) -/
+def nestedLE : ITree :=
+  { id := 1, sizeByte := 8, bigEndian := false,
+    top := [.mux ⟨"p", 0, 1, 2, 6, [⟨"a", 0, 6, [1], false⟩, ⟨"n", 0, 6, [0], true⟩]⟩],
+    nested := [⟨"n", 1, 1, 2, 5, [⟨"k", 0, 5, [1], false⟩]⟩] }
+
+theorem ex_nested_LE_round : importMsg (exportAny nestedLE) = .ok nestedLE := by decide
 
 end Acme.Props.C11Msg
